@@ -15,6 +15,9 @@ func views() map[string]View {
 		"sdecode": sdecodeView{},
 		"cluster": clusterView{},
 		"authip":  authipView{},
+		"ring":    ringView{},
+		"llist":   llistView{},
+		"elastic": elasticView{},
 	}
 }
 
